@@ -367,6 +367,9 @@ func Evaluate(p *Prog, cfg Cfg, root string) *Expect {
 				}
 				first, last := n.extent()
 				for _, ig := range n.Lead {
+					if first == 0 && last == 0 {
+						continue // a comment with no statement after it in its body (node without lines): nothing is in its scope
+					}
 					if !ig.Block {
 						scopes = append(scopes, scope{toks: ig.Tokens(), from: first, to: last})
 					} else {
